@@ -3,6 +3,8 @@
 //   global gen gp SEED COUNT LEVEL      LEVEL 0 = quick (small circuits, efforts 1-3), 1 = thorough (larger, efforts 1-9)
 //   global gen gpn SEED COUNT LEVEL     circuits whose rows are all covered by fixed obstructions (no free capacity: finding F28)
 //   global gen gpf SEED COUNT LEVEL     circuits without any fixed cell translated to offsets 2^16 .. 2^22 (finding F30)
+//   global gen gpq SEED COUNT LEVEL     "GQ" lines: the callback of placeGlobal RESIZES movable cells in mid-run (setCellWidth / setCellHeight, never to
+//                                       or from a zero area); 80 % with a fixed cell of non-zero area
 //   global gen gpc SEED COUNT           circuits with EXACT coincidences (floating groups with centred pins, nets whose pins all
 //                                       coincide, stacked twin cells, no fixed pin at all), all four net models
 //   global gen spread SEED COUNT        dyadic spreading cases (every float operation of spreadCells is exact)
@@ -13,6 +15,9 @@
 // case lines
 //   "GP <rows> <cells> <nets> effort seed netModel costModel tolExp approx10 cutoff10 line lineOv diag diagOv sq sqOv uni1d nbSteps binSize10 blend100 maxSteps
 //       [rlTargetBlend100 rlQuadPenalty1000 rlCoarsening10]"   (the last three are optional: library defaults 0 1 1000)
+//   "GQ nact (cb kind seed)*nact <the payload of a GP line>"    cb = callback number (0-based) at which the action fires; kind 1 widths, 2 heights,
+//       3 both, 4 the current widths set again.  Result line = the GP result line with two more numbers in the second section (actions fired,
+//       UpperBound exposures after the first one) and two more "/" parts in the fifth (placed sizes at the last exposed lower / upper bound)
 //   "GR <rows> <cells> binSize10 sideMargin100"
 //   "SP ncells nlx lx.. nly ly.. refX refY nbins (k cells..)*nbins demands*ncells tx4*ncells ty4*ncells"   (targets are t/4)
 // result lines: sections separated by " | ", see the printf calls; floats are printed exactly as "m e" (value m*2^e).
@@ -195,6 +200,39 @@ static void genGPF(SplitMix &g, long long count, int level) {
     for (auto &r : t.rows) { r[0] += ox; r[1] += ox; r[2] += oy; r[3] += oy; }
     for (auto &c : t.cells) { c[0] += ox; c[1] += oy; }
     printf("GP %s %s %s\n", showRowsCells(t).c_str(), showNets(t).c_str(), drawParams(g, level).c_str());
+  }
+}
+
+// circuits whose placement CALLBACK resizes movable cells in the middle of the run ("GQ" lines: 1-3 actions, see CbAct), 80 % of them
+// with at least one FIXED cell of non-zero area (macro / obstruction or plain fixed cell, inside or next to the rows): the supported way
+// of routability- or timing-driven inflation (setCellWidth / setCellHeight are not refused during a placement call).  The first action
+// sits at one of the first three callbacks in 60 % of the cases (callback 0 = the first lower bound always exists, and an upper bound
+// always follows it), so that the update path GlobalPlacer::updateCellSizes -> updateCellDemand is taken by almost every run
+static void genGPQ(SplitMix &g, long long count, int level) {
+  for (long long it = 0; it < count; ++it) {
+    TCircuit t = genGlobalCircuit(g, level);
+    long long rh = t.rows[0][3] - t.rows[0][2], minX = LLONG_MAX, maxX = LLONG_MIN, minY = LLONG_MAX, maxY = LLONG_MIN;
+    for (auto &r : t.rows) { minX = std::min(minX, r[0]); maxX = std::max(maxX, r[1]); minY = std::min(minY, r[2]); maxY = std::max(maxY, r[3]); }
+    bool fixedArea = false; for (auto &c : t.cells) if (c[6] && c[2] > 0 && c[3] > 0) fixedArea = true;
+    if (!fixedArea && g.coin(80)) {
+      int nf = (int)g.uni(1, 3);
+      for (int i = 0; i < nf; ++i) {
+        std::array<long long, 8> c{};
+        c[2] = g.uni(1, 4 * rh); c[3] = g.coin(25) ? g.uni(1, rh) : rh * g.uni(1, 2); c[4] = g.coin(70) ? 0 : g.uni(0, 7); c[5] = 0; c[6] = 1; c[7] = g.coin(60);
+        c[0] = minX + g.uni(-2 * rh, (maxX - minX) + rh); c[1] = g.coin(70) ? minY + rh * g.uni(0, (maxY - minY) / rh) : minY + g.uni(-rh, (maxY - minY) + rh);
+        t.cells.push_back(c);
+        if (g.coin(50)) {   // a net from the new fixed cell to some movable cell
+          for (size_t k = 0; k < t.cells.size(); ++k) if (!t.cells[k][6]) { t.nets.push_back({{(long long)t.cells.size() - 1, g.uni(0, c[2]), g.uni(0, c[3])}, {(long long)k, 0, 0}}); t.netw2.push_back(2); break; }
+        }
+      }
+    }
+    static const int kinds[] = {1, 1, 2, 3, 3, 4};
+    int na = (int)g.uni(1, 3); std::ostringstream a; a << na;
+    for (int i = 0; i < na; ++i) {
+      int cb = (i == 0 && g.coin(60)) ? (int)g.uni(0, 2) : (int)g.uni(0, i == 0 ? 12 : 30);
+      a << " " << cb << " " << kinds[g.uni(0, 5)] << " " << g.uni(1, 1000000);
+    }
+    printf("GQ %s %s %s %s\n", a.str().c_str(), showRowsCells(t).c_str(), showNets(t).c_str(), drawParams(g, level).c_str());
   }
 }
 
@@ -442,10 +480,35 @@ static void runGR(IntReader &r) {
 }
 
 struct StopRun {};   // thrown from the callback at the first overflowed / non-finite exposed coordinate (a run on NaN may never end)
+// a legitimate mid-run action of a "GQ" case: at callback number `cb` (0-based, counted over all steps) the callback resizes movable cells
+// of positive area through Circuit::setCellWidth / setCellHeight (unguarded setters: they set hasCellSizeUpdate_, picked up by the next
+// GlobalPlacer::runUB).  kind: 1 widths, 2 heights, 3 both, 4 the current widths set again (an update that changes nothing).
+// No cell changes to or from a zero area; fixed cells and area-less cells are left alone.  The new sizes are a function of the seed and of
+// the sizes of the moment only, so that the private replica fires exactly the same actions.
+struct CbAct { int cb, kind; uint64_t seed; };
 struct Recorder {
   bool stopOnOverflow = false;
   std::vector<int> lastLB, lastUB;   // circuit coordinates (x y per cell) at the last LowerBound / last UpperBound-or-PenaltyUpdate exposure
+  std::vector<int> szLB, szUB;       // placed sizes (w h per cell) AT THAT MOMENT: the sizes the exposed lower-left corners were computed with
+  Circuit *mc = nullptr; std::vector<CbAct> acts; long long rh = 1; int fired = 0, ubAfter = 0;   // GQ only
   void snap(std::vector<int> &v) { v.clear(); for (int i = 0; i < c->nbCells(); ++i) { v.push_back(c->cellX_[i]); v.push_back(c->cellY_[i]); } }
+  void snapSizes(std::vector<int> &v) { v.clear(); for (int i = 0; i < c->nbCells(); ++i) { v.push_back(c->placedWidth(i)); v.push_back(c->placedHeight(i)); } }
+  void fire(const CbAct &a) {
+    SplitMix h(a.seed);
+    std::vector<int> w = mc->cellWidth_, hh = mc->cellHeight_;
+    for (int i = 0; i < mc->nbCells(); ++i) {
+      if (mc->isFixed(i) || w[i] <= 0 || hh[i] <= 0) continue;
+      if ((a.kind & 1) && h.coin(40)) w[i] = (int)std::max<long long>(1, w[i] + h.uni(-2, 3));
+      if ((a.kind & 2) && h.coin(20)) hh[i] = (int)((hh[i] % rh == 0 && h.coin(70)) ? rh * h.uni(1, 3) : std::max<long long>(1, hh[i] + h.uni(-1, 1)));
+    }
+    if ((a.kind & 1) || a.kind == 4) mc->setCellWidth(w);
+    if (a.kind & 2) mc->setCellHeight(hh);
+    ++fired;
+  }
+  void operator()(PlacementStep st) {
+    observe(st);
+    if (mc) for (auto &a : acts) if (a.cb == ncb - 1) fire(a);
+  }
   const Circuit *c = nullptr; Rectangle area{0, 0, 0, 0}; int slackX2 = 0, slackY2 = 1;   // tolerated excess in half units
   int ncb = 0, nub = 0, nlb = 0, npu = 0, excPos = 0, excZero = 0; uint64_t hash = 1469598103934665603ULL; std::string viol;
   void mix(long long v) { hash ^= (uint64_t)v; hash *= 1099511628211ULL; }
@@ -456,14 +519,14 @@ struct Recorder {
       if ((std::llabs(x) >= (1LL << 30) || std::llabs(y) >= (1LL << 30)) && viol.empty()) { std::ostringstream s; s << "OVERFLOW " << where << " cb " << ncb << " cell " << i << " at " << x << " " << y; viol = s.str(); }
     }
   }
-  void operator()(PlacementStep st) {
+  void observe(PlacementStep st) {
     ++ncb; mix((int)st);
     for (int i = 0; i < c->nbCells(); ++i) { mix(c->cellX_[i]); mix(c->cellY_[i]); mix((int)c->cellOrientation_[i]); }
     finiteCheck("callback");
     if (stopOnOverflow && viol.compare(0, 8, "OVERFLOW") == 0) throw StopRun();
-    if (st == PlacementStep::LowerBound) { ++nlb; snap(lastLB); return; }
-    if (st == PlacementStep::PenaltyUpdate) ++npu; else if (st == PlacementStep::UpperBound) ++nub; else return;
-    snap(lastUB);
+    if (st == PlacementStep::LowerBound) { ++nlb; snap(lastLB); snapSizes(szLB); return; }
+    if (st == PlacementStep::PenaltyUpdate) ++npu; else if (st == PlacementStep::UpperBound) { ++nub; if (fired) ++ubAfter; } else return;
+    snap(lastUB); snapSizes(szUB);
     // an upper-bound placement is exposed: twice the centre of every movable cell against the rows' bounding box
     for (int i = 0; i < c->nbCells(); ++i) {
       if (c->isFixed(i)) continue;
@@ -504,7 +567,9 @@ static ColoquinteParameters readParams(IntReader &r) {
   return p;
 }
 
-static void runGP(IntReader &r) {
+static void runGP(IntReader &r, bool withActions = false) {
+  std::vector<CbAct> acts;
+  if (withActions) { int na = (int)r.nx(); for (int i = 0; i < na; ++i) { CbAct a; a.cb = (int)r.nx(); a.kind = (int)r.nx(); a.seed = (uint64_t)r.nx(); acts.push_back(a); } }
   TCircuit t = readRowsCells(r); readNets(r, t);
   ColoquinteParameters p = readParams(r);
   Circuit orig = buildCircuit(t);
@@ -525,9 +590,9 @@ static void runGP(IntReader &r) {
   // the model ties (bin limits, export, spreading on the final bins) are evaluated there as well; the case is marked NOCAP on the OK field
   bool nocap = cap <= 0;
   char ncs[48] = ""; if (nocap) snprintf(ncs, sizeof ncs, " NOCAP %lld", cap);
-  (void)rh;
   // (a) the public entry point with a recording callback
   Circuit ca = orig; Recorder ra; ra.c = &ca; ra.area = ca.computePlacementArea(); ra.slackX2 = margin >= 1 ? 0 : 1; ra.stopOnOverflow = true;
+  if (withActions) { ra.mc = &ca; ra.acts = acts; ra.rh = std::max(1, rh); }
   std::string sa = "OK";
   try { ca.placeGlobal(p, PlacementCallback(std::ref(ra))); } catch (std::exception &e) { sa = std::string("THROW ") + e.what(); } catch (StopRun &) { sa = "STOPPED"; }
   if (sa == "OK") ra.finiteCheck("return");
@@ -536,16 +601,23 @@ static void runGP(IntReader &r) {
     if (ca.cellOrientation_[i] != orig.cellOrientation_[i]) frame = false;
     if (orig.isFixed(i) && (ca.cellX_[i] != orig.cellX_[i] || ca.cellY_[i] != orig.cellY_[i])) frame = false;
   }
-  printf("GP %s | %d %d %d %d | %s | %d %d %d |", sa.c_str(), ra.ncb, ra.nub, ra.nlb, ra.npu, ra.viol.empty() ? "-" : ra.viol.c_str(), (int)frame, ra.excPos, ra.excZero);
+  char extra[48] = ""; if (withActions) snprintf(extra, sizeof extra, " %d %d", ra.fired, ra.ubAfter);   // GQ: actions fired, UpperBound exposures after the first one
+  printf("GP %s | %d %d %d %d%s | %s | %d %d %d |", sa.c_str(), ra.ncb, ra.nub, ra.nlb, ra.npu, extra, ra.viol.empty() ? "-" : ra.viol.c_str(), (int)frame, ra.excPos, ra.excZero);
   for (int i = 0; i < ca.nbCells(); ++i) printf(" %d %d", ca.cellX_[i], ca.cellY_[i]);
   // what was EXPOSED through the callbacks of the public entry point: last lower bound, last upper bound, placed sizes
   printf(" /"); for (int v : ra.lastLB) printf(" %d", v);
   printf(" /"); for (int v : ra.lastUB) printf(" %d", v);
-  printf(" /"); for (int i = 0; i < ca.nbCells(); ++i) printf(" %d %d", orig.placedWidth(i), orig.placedHeight(i));
+  // placed sizes the RETURNED lower-left corners were computed with (GP: they never change during a run)
+  printf(" /"); for (int i = 0; i < ca.nbCells(); ++i) printf(" %d %d", ca.placedWidth(i), ca.placedHeight(i));
+  if (withActions) {   // GQ: the sizes of the moment of the last exposed lower bound / upper bound
+    printf(" /"); for (int v : ra.szLB) printf(" %d", v);
+    printf(" /"); for (int v : ra.szUB) printf(" %d", v);
+  }
   fflush(stdout);
   if (sa == "STOPPED") { printf(" | STOPPED\n"); return; }
   // (b) the same steps as GlobalPlacer::place, with access to the private state
   Circuit cb = orig; Recorder rb; rb.c = &cb; rb.area = ra.area; rb.slackX2 = ra.slackX2;
+  if (withActions) { rb.mc = &cb; rb.acts = acts; rb.rh = ra.rh; }   // the same actions: a function of the seed and of the sizes of the moment
   std::string sb = "OK";
   try {
     p.check();
@@ -560,7 +632,8 @@ static void runGP(IntReader &r) {
     printf(" | OK %d%s | GL %d %d ", (int)same, ncs, margin, maxSize); printModelCircuit(t); printf(" | "); printLimits(pl.leg_.grid_);
     // EX model case: blending, cells (fixed x y placedWidth placedHeight), the four float vectors
     printf(" | EX %s %d", fme((float)p.global.exportBlending).c_str(), cb.nbCells());
-    for (int i = 0; i < cb.nbCells(); ++i) printf(" %d %d %d %d %d", (int)orig.isFixed(i), orig.cellX_[i], orig.cellY_[i], orig.placedWidth(i), orig.placedHeight(i));
+    // placed sizes of the replica's circuit at export time (GQ: after the resizing actions; GP: the original ones)
+    for (int i = 0; i < cb.nbCells(); ++i) printf(" %d %d %d %d %d", (int)orig.isFixed(i), orig.cellX_[i], orig.cellY_[i], cb.placedWidth(i), cb.placedHeight(i));
     printFloats(lbx); printFloats(ubx); printFloats(lby); printFloats(uby);
     // SC model cases on the final bins with the final lower bound as target
     std::vector<float> sx = pl.leg_.spreadCoordX(lbx), sy = pl.leg_.spreadCoordY(lby);
@@ -589,6 +662,7 @@ int main(int argc, char **argv) {
     else if (what == "gpc") genGPC(g, count);
     else if (what == "gpn") genGPN(g, count, argc > 5 ? atoi(argv[5]) : 0);
     else if (what == "gpf") genGPF(g, count, argc > 5 ? atoi(argv[5]) : 0);
+    else if (what == "gpq") genGPQ(g, count, argc > 5 ? atoi(argv[5]) : 0);
     else if (what == "grid") genGR(g, count);
     else if (what == "spread") genSP(g, count);
     else if (what == "spreadf") genSF(g, count);
@@ -602,6 +676,7 @@ int main(int argc, char **argv) {
     if (sigsetjmp(vh_jmp, 1)) { printf(" | SIGNAL %s\n", vh_signame()); fflush(stdout); continue; }
     try {
       if (line.compare(0, 3, "GP ") == 0) runGP(r);
+      else if (line.compare(0, 3, "GQ ") == 0) runGP(r, true);
       else if (line.compare(0, 3, "GR ") == 0) runGR(r);
       else if (line.compare(0, 3, "SP ") == 0) runSP(r);
       else if (line.compare(0, 3, "SF ") == 0) runSP(r, true);
